@@ -242,6 +242,37 @@ def work(shard):
     return out
 
 
+def work_arrows(shard):
+    """manual entry point: every arrow layout (4 symbols per tile) on a 2x3 or 3x2 board, rewards and loose tiles fixed"""
+    out = {"files": 0, "entries_solved": 0, "violations": [], "n_violations": 0, "known": {}, "nontrivial": 0, "samples": [],
+           "max_legit_seconds": 0.0, "structural_only": 0}
+    L, W, lo, hi = shard
+    from ..universe import Product
+    with gen.Scratch() as sc:
+        for combo in Product([[0, 1, 2, 3]] * (L * W)).iter_range(lo, hi):
+            moves = [[combo[i * W + j] for j in range(W)] for i in range(L)]
+            rew = [[(i + j) % 3 for j in range(W)] for i in range(L)]
+            loose = [[(i * W + j) % 2 for j in range(W)] for i in range(L)]
+            sc.clear()
+            out["files"] += 1
+            out["structural_only"] += 1
+            out["nontrivial"] += 1
+            try:
+                SG.create_sg_from_board(moves, rew, loose, 0.1, 0.05, 0.25)
+                files = sc.files()
+                d = CR.read_dict_from_file(os.path.join("inputs", files[0])) if len(files) == 1 else None
+                why = structural(d) if d is not None else "created %r" % files
+            except Exception as e:                           # noqa: BLE001
+                why = "exception %r" % (e,)
+            if why:
+                out["n_violations"] += 1
+                if len(out["violations"]) < 2:
+                    out["violations"].append(mk("C11/manual-structure", {"moves": moves, "rewards": rew, "loose_tiles": loose}, why, None,
+                                                "create_sg_from_board(moves=%r, rewards=%r, loose=%r): %s" % (moves, rew, loose, why), False, "manual"))
+    out["samples"].append({"entry": "manual", "arrow_layouts_on": [L, W]})
+    return out
+
+
 def param_sets(ctx):
     """(params, solve?) - solve only on the solve grid"""
     thorough = ctx.thorough
@@ -294,10 +325,14 @@ def param_sets(ctx):
     return out
 
 
+def dispatch(shard):
+    return work_arrows(shard[1]) if shard[0] == "arrows" else work(shard)
+
+
 RULE = ("command-line path roberta_generator.main() in a scratch directory over the listed grid: seeds x sizes x max reward x force-down x the four "
         "probabilities varied one (thorough: two) at a time over the solve grid {0.05,0.1,0.29,0.5,0.9} (file + solve) and the extreme grid "
         "{1e-6, 0.99, 1-1e-9} and very long/wide boards (file structure only); manual path create_sg_from_board on every board of the <= 3-tile "
-        "universe (structure); non-trivial = non-square, force-down or non-default probabilities")
+        "universe and on every arrow layout of a 2x3 and a 3x2 board (structure); non-trivial = non-square, force-down or non-default probabilities")
 ASSUME = ["termination of the batch run is only claimed on the solve grid; with a failure probability of 1e-6 the solver legitimately needs ~3e7 sweeps",
           "a batch run that does not return within the alarm on a game that has an end component among its non-absorbing states (i.e. is not a "
           "stopping game) matches known finding KF-C11-1 (while listed) and is not confirmed further; on a game without end component "
@@ -317,7 +352,10 @@ def run(ctx):
             size = len(c08.tile_alphabet(rewset)) ** tiles
             for lo, hi in par.ranges(size, ctx.jobs if size > 1000 else 1):
                 shards.append(("manual", [(L, W, lo, hi, rewset)]))
-    tot = par.run_shards(work, shards, ctx.jobs)
+    for (L, W) in ((2, 3), (3, 2)):
+        for lo, hi in par.ranges(4 ** (L * W), ctx.jobs):
+            shards.append(("arrows", (L, W, lo, hi)))
+    tot = par.run_shards(dispatch, shards, ctx.jobs)
     known = tot.get("known", {})
     for kid, d in known.items():
         d["what"] = KF.get(kid, "")
